@@ -60,10 +60,14 @@ def generate(rng, tier="quick"):
     cls = rng.choice(["A", "B", "S"])
     node = {"cls": cls, "pw": gen.gen_bytes(rng).hex(), "pset": 0,
             "entropy": {"mode": "uniform", "seed": rng.randrange(1 << 40)}}
-    L = rng.choice([1, 2, 2, 3, 3, 3, 4, 4, 4, 5, 6, 8, 10])
+    L = rng.choice([1, 2, 2, 3, 3, 3, 4, 4, 4, 5, 6, 8, 10, 10, 18, 25, 40, 70])
     steps = [{"op": "boot", "n": 0}]
     # bias: most histories begin with start (otherwise nearly everything after is a refusal)
     w = [6, 1, 3, 1, 1, 2, 1, 1, 3, 3]
+    if rng.random() < 0.1:
+        # a long-lived instance that is checkpointed again and again (no restore in between)
+        L = rng.choice([20, 30, 45, 70])
+        w = [3, 0, 2, 1, 0, 1, 0, 0, 30, 0]
     for i in range(L):
         sym = rng.choices(SYMS, weights=w)[0]
         if i == 0 and rng.random() < 0.6:
@@ -75,6 +79,8 @@ def generate(rng, tier="quick"):
             st["v"] = rng.choice([0x43, 0x00, 0xff, 0x61, rng.randrange(256)])
             if st["v"] in (0x41, 0x42, 0x53):
                 st["v"] = 0x43
+        if sym.startswith("finish_") and rng.random() < 0.12:
+            st["as"] = rng.choice(["bytearray", "memoryview"])    # callers pass buffers, not only bytes
         steps.append(st)
     return {"property": PROP, "config": {"psets": [pspec], "nodes": [node]}, "steps": steps}
 
